@@ -96,6 +96,8 @@ func c15Body(t *testing.T, depth, ntx int) func(c *verifeng.Chooser) {
 				panic(ie)
 			}
 			c.Fail("panic", "panic", "%v", out.Panic)
+		case out.Deadlock != "":
+			c.Fail("stuck", "controller-deadlock", "a call into the broadcaster blocked with every goroutine idle (%s)", out.Deadlock)
 		case out.Hang:
 			c.Fail("hang", "hang", "the bubble never became quiescent")
 		case out.Leak != "" && !c.Failed():
